@@ -167,7 +167,22 @@ dropped by the assembler, `END -1` accepted by the '94 load-file reader, a
 skipping SLT that queues address M, a typed-nil `GetWarrior`, DJN.F without a
 report, ...). All 17 were reported at once by the quick tier.
 
-After these changes all 187 are reported. The table is generated from the last
+Eighth round: 17 more (one per property) on two themes, performance work
+(caches, pools, masks instead of modulo, narrower types, elided reports) and
+tidied error handling (errors stored and returned late, `continue` for
+`return err`, shared error variables, early `return nil`). 16 were reported at
+once. The seventeenth (a package-level cache of formatted listing lines keyed
+without the core size: the listing of one simulator depends on which
+simulators printed listings before it) was *found* by C16 on every run, but
+the orchestrator refused a verdict: the single case does not reproduce in a
+fresh process, and candidates that do not reproduce were never reported. The
+orchestrator now distinguishes that situation from a flaky harness: when the
+case alone does not reproduce, the worker shard that reported it is re-run
+twice, and if both runs report the identical violation it is reported as a
+deterministic *history-dependent* violation whose replayable witness is the
+shard (section 10).
+
+After these changes all 204 are reported. The table is generated from the last
 run of every seed against the current machinery. (Two of the agents also
 pointed out defects of the unchanged tree while reading: D20 and D21 of
 section 11.)
